@@ -8,6 +8,7 @@ repeatable interleaving.  A crashed process is never resumed (no `finally` of
 its code runs - that is what SIGKILL means); when the run is over, parked
 threads are released in zombie mode and unwind with SimKilled."""
 import gc
+import sys
 import threading
 
 from .loop import SimLoop, SimStall
@@ -15,6 +16,18 @@ from .loop import SimLoop, SimStall
 
 class SimKilled(BaseException):
     """the simulated process does not exist any more"""
+
+
+def _quiet_unraisable(unraisable, _orig=sys.unraisablehook):
+    """parked threads of dead simulated processes unwind with SimKilled while
+    their coroutines are being finalised: that is expected, not worth a message"""
+    if isinstance(unraisable.exc_value, SimKilled) or \
+            "coroutine ignored GeneratorExit" in str(unraisable.exc_value):
+        return
+    _orig(unraisable)
+
+
+sys.unraisablehook = _quiet_unraisable
 
 
 class SimProcess:
